@@ -299,7 +299,56 @@ def rule_f(ctx: Ctx) -> None:
     dead_settings(ctx, "C10.f", [("sqlglot.dialects.dialect", "Dialect")])
 
 
-RULES = [rule_a, rule_b, rule_c, rule_d, rule_e, rule_f]
+TABLE_PART_KEYS = {"db", "catalog", "this"}
+
+
+def rule_g(ctx: Ctx) -> None:
+    ctx.rule("C10.g", "free-standing table qualifiers are normalised as table names: an identifier that optimizer code parses from text (exp.parse_identifier / exp.to_identifier), "
+                      "normalises (normalize_identifiers / normalize_identifier) and then installs as a table's db / catalog is marked `.meta[\"is_table\"] = True` before it is "
+                      "normalised — normalisation looks at the parent to recognise table parts, a free-standing identifier has none, and dialects that keep table names "
+                      "case-sensitive (BigQuery) would fold the default dataset while leaving the same name written in the query alone")
+    n = 0
+    for f in ctx.repo.all_funcs():
+        m = f.module
+        if not m.name.startswith("sqlglot.optimizer") or ".<locals>." in f.qualname:
+            continue
+        # variables installed as a table part anywhere in the function (including nested helpers)
+        installed: set[str] = set()
+        for c in ast.walk(f.node):
+            if isinstance(c, ast.Call) and isinstance(c.func, ast.Attribute) and c.func.attr == "set" and len(c.args) >= 2 and isinstance(c.args[0], ast.Constant) \
+                    and c.args[0].value in ("db", "catalog"):
+                for x in ast.walk(c.args[1]):
+                    if isinstance(x, ast.Name):
+                        installed.add(x.id)
+        if not installed:
+            continue
+        marked_at: dict[str, int] = {}
+        for st in ast.walk(f.node):
+            if isinstance(st, ast.Assign) and len(st.targets) == 1 and isinstance(st.targets[0], ast.Subscript) and norm(st.targets[0].slice) in ("'is_table'", '"is_table"') \
+                    and isinstance(st.targets[0].value, ast.Attribute) and st.targets[0].value.attr == "meta" and isinstance(st.targets[0].value.value, ast.Name):
+                marked_at.setdefault(st.targets[0].value.value.id, st.lineno)
+        for c in ast.walk(f.node):
+            if not (isinstance(c, ast.Call) and (call_name(c) or "").split(".")[-1] in ("normalize_identifiers", "normalize_identifier") and c.args):
+                continue
+            a = c.args[0]
+            par = m.parent(c)
+            target = par.targets[0].id if isinstance(par, ast.Assign) and len(par.targets) == 1 and isinstance(par.targets[0], ast.Name) else None
+            fresh_inline = isinstance(a, ast.Call) and (call_name(a) or "").split(".")[-1] in ("parse_identifier", "to_identifier")
+            var = a.id if isinstance(a, ast.Name) else None
+            if not ((var in installed) or (target in installed and (fresh_inline or var == target))):
+                continue
+            n += 1
+            inst = f"{f.key}|{norm(c, 70)}"
+            if var and var in marked_at and marked_at[var] < c.lineno:
+                ctx.ok(inst, {"normalised": norm(c, 70), "marked": f"{var}.meta['is_table'] = True"})
+            else:
+                ctx.fail(m, c, f.key, c, f"`{norm(c, 80)}` normalises an identifier that is later installed as a table's db / catalog without marking it "
+                                         f"`.meta[\"is_table\"] = True` first: BigQuery folds the default dataset (Sales -> sales) although the same name written in the query keeps its case")
+    ctx.count("free_standing_table_qualifiers", n)
+    ctx.min_instances("free_standing_table_qualifiers", n, 2)
+
+
+RULES = [rule_a, rule_b, rule_c, rule_d, rule_e, rule_f, rule_g]
 EXPLANATION = (
     "Typestate of a straight-line pipeline: the order of the six stage calls, the single threaded variable, own-flag "
     "guards, defaults and dialect/schema threading in qualify() are read from its AST; the error family of every "
